@@ -119,8 +119,14 @@ func (m *model) Resolve(p *xp.Path) (xp.Val, error) {
 	if IsLeafList(id) {
 		return xp.VSet([]string{tree.DefaultValue(id) + "#1", tree.DefaultValue(id) + "#2"}), nil
 	}
+	if IsEmptyLeafList(id) {
+		return xp.VSet(nil), nil
+	}
 	return xp.VSet([]string{tree.DefaultValue(id)}), nil
 }
 
 // IsLeafList: the nodes named "ll" are leaf-lists with two values.
 func IsLeafList(id tree.ID) bool { return len(id) > 0 && id[len(id)-1].Name == "ll" }
+
+// IsEmptyLeafList: the nodes named "le" are leaf-lists that hold nothing.
+func IsEmptyLeafList(id tree.ID) bool { return len(id) > 0 && id[len(id)-1].Name == "le" }
